@@ -140,6 +140,8 @@ def run(rep, facts, tier):
     rep.rule('R15.4', 'pad discipline of hand-aligned value codecs (ContentFilterProperty, Property/BinaryProperty/Tag/DataHolder, qos Property/DataTag): every read_pad/write_pad(.., L, 4) has '
                       'L = length of the value read/written immediately before on every path (0 after a 4-byte primitive or at entry), and no variable-length value is followed by another '
                       'stream operation without a pad; reader and writer therefore skip/emit the same padding for any number of elements')
+    rep.rule('R15.5', 'PID <-> field agreement: a value read with parameter id P is stored into the field (directly or through a simple constructor, by argument position) that the '
+                      'serializer took the value of P from')
     rep.rule('R15.3', 'unknown parameters: ParameterList::read_from skips every parameter by its length and stops only at the sentinel; deserializers look parameters up by id')
     tot_t = tot_p = 0
     for cfg in CONFIGS:
@@ -148,6 +150,8 @@ def run(rep, facts, tier):
         t, p = run_config(rep, facts[cfg], cfg)
         tot_t += t
         tot_p += p
+        n5 = rule_15_5(rep, facts[cfg], cfg)
+        rep.coverage_extra.setdefault('pid_field_pairs', {})[cfg] = n5
         from rules import padrule
         nb, npads = padrule.run_rule(rep, facts[cfg], 'R15.4', cfg)
         rep.coverage_extra.setdefault('pad_codecs', {})[cfg] = {'functions': nb, 'pad_calls': npads}
@@ -209,3 +213,89 @@ def run(rep, facts, tier):
         ogx = Origins(x, summaries=False)
         ok = any(callee_res(t).endswith('::get') and any(ogx.of_operand(a, bb, 'term')[0] == 'param' for a in t['args'][1:]) for bb, t in x.calls())
         rep.check(ok, 'R15.3', '%s/by-id' % g, 'looks the parameter up by id in the map', '%s does not look its parameter up by id' % g, x.where())
+
+
+def ctor_field_map(fx, callee_key):
+    """For a simple constructor (returns an aggregate whose fields are its parameters): {param index: field name}."""
+    out = {}
+    for cb in fx.by_key.get(callee_key, []):
+        og = Origins(cb, summaries=False)
+        for bb, si, st in cb.statements():
+            if st['s'] == 'assign' and st['rv']['r'] == 'agg' and st['rv'].get('kind') == 'adt' and st['rv'].get('fields'):
+                for f, o in zip(st['rv']['fields'], st['rv']['ops']):
+                    tm = og.of_operand(o, bb, si)
+                    if tm[0] == 'param':
+                        out[tm[1]] = f
+    return out
+
+
+def pid_field_maps(fx, short, ty):
+    """-> (S: pid -> set(field names the value is taken from), D: [(field, pid, where)] leaf mappings of the deserializer)."""
+    ser = bodies_named(fx, ty, ('to_parameter_list',)) or bodies_named(fx, ty, ('to_pl_cdr_bytes',))
+    des = bodies_named(fx, ty, ('from_pl_cdr_bytes', 'from_parameter_list'))
+    S = {}
+    for b in transitive(fx, ser[0], ('to_parameter_list',)):
+        for e in pltables.emissions(fx, b):
+            S.setdefault(e['pid'], set()).update(e['fields'])
+    D = []
+
+    def pids_of(tm):
+        return sorted(set(pltables.pid_of(a) for x in term_leaves(tm) if x[0] == 'call' and x[1].rsplit('::', 1)[-1] in pltables.GETTERS for a in x[2] if pltables.pid_of(a)))
+    for b in transitive(fx, des[0], ('from_parameter_list', 'from_pl_cdr_bytes')):
+        og = Origins(b, summaries=False)
+        for bb, si, st in b.statements():
+            if not (st['s'] == 'assign' and st['rv']['r'] == 'agg' and st['rv'].get('kind') == 'adt' and st['rv'].get('fields')):
+                continue
+            adt = strip_generics(str(st['rv'].get('adt')))
+            if adt.startswith(('std::', 'core::', 'alloc::')):
+                continue
+            for f, o in zip(st['rv']['fields'], st['rv']['ops']):
+                tm = og.of_operand(o, bb, si)
+                ps = pids_of(tm)
+                if len(ps) == 1:
+                    D.append((f, ps[0], b.where(bb, si)))
+        # constructor calls fed with parameter values
+        for bb, t in b.calls():
+            r = strip_generics(callee_res(t))
+            if not r.endswith('::new') or r.startswith(('std::', 'core::', 'alloc::')):
+                continue
+            fm = ctor_field_map(fx, norm_path(callee_res(t)))
+            for i, a in enumerate(t['args']):
+                ps = pids_of(og.of_operand(a, bb, 'term'))
+                if len(ps) == 1 and (i + 1) in fm:
+                    D.append((fm[i + 1], ps[0], b.where(bb)))
+    return S, D
+
+
+# deserializer field <- PID pairs whose serializer source is named differently on purpose (read on the pinned tree)
+FIELD_ALIASES = {}
+
+
+def rule_15_5(rep, fx, cfg):
+    pre = '' if cfg == 'default' else cfg + ':'
+    n = 0
+    for short, ty in TYPES:
+        try:
+            S, D = pid_field_maps(fx, short, ty)
+        except IndexError:
+            continue
+        by_pid = {}
+        for f, pid, where in D:
+            by_pid.setdefault(pid, []).append((f, where))
+        owner = {}
+        for pid, fs in S.items():
+            for f in fs:
+                owner.setdefault(f, set()).add(pid)
+        for pid, dests in sorted(by_pid.items(), key=lambda kv: str(kv[0])):
+            if pid not in S or not S[pid]:
+                continue
+            n += 1
+            src = S[pid]
+            hit = [f for f, _w in dests if f in src or (short, pid, f) in FIELD_ALIASES]
+            # a destination that is the source field of a *different* parameter
+            stray = [f for f, _w in dests if f not in src and any(q != pid for q in owner.get(f, ()))]
+            ok = bool(hit) and not stray
+            rep.check(ok, 'R15.5', '%s%s/%s' % (pre, short, pid), 'read into the field it was written from (%s)' % ', '.join(sorted(set(hit))),
+                      '%s: %s is written from %s but read into %s: the value lands in another field, the data does not survive although every parameter is read with the '
+                      'right id and type' % (short, pid, sorted(src), sorted(set(f for f, _w in dests))), dests[0][1])
+    return n
